@@ -337,6 +337,9 @@ def _crash_tag(j, at):
     hist = at.split()[-1].split(",")
     st = {}
     for h in hist:
+        # an operation on one object while another one is live: from here on the objects share native state (known finding)
+        if any(v == "live" for k, v in st.items() if k != h[1]):
+            return "two-objects-interference"
         st[h[1]] = "released" if h[0] == "F" else "live"
     last_obj = hist[-1][1]
     nlive = sum(1 for v in st.values() if v == "live")
